@@ -31,7 +31,7 @@ META['level_text'] = (
     'Theorems (every template nesting oneof / manyof in all four distinct x sorted modes / floatv / custom placeholders in dicts, lists, objects and in the candidates of '
     'other placeholders, every `where` filter, every DNA valid for the template\'s specification): see coq/Properties/C13.v — what the code computes on the concrete DNA of a valid '
     'decision is the structured decoder (slot assignment, re-rooting of conditional child DNA, distinct/sorted checks); decoding a valid DNA succeeds (only user code of a custom hyper can fail), leaves no accepted '
-    'placeholder, gives a value of the template\'s shape, and encoding it returns the same DNA when the candidates of every choice are distinguishable (with a _partial / _refuted pair for the one open finding); '
+    'placeholder, gives a value of the template\'s shape, and encoding it returns the same DNA when the candidates of every choice are distinguishable (with a _partial / _refuted pair for the behaviour before the repair 08a7b16, whose quirk flag the model keeps and sets by witness replay); '
     'what encode accepts is decodable; two valid DNAs never decode to equal values and iterating a finite template yields exactly the valid DNAs, as many as space_size (with C11); '
     'a value decoded from a placeholder tree bound to a value spec is accepted by that spec (fragment, on C04\'s Typing model). Tie: the model is run against the library on a systematic placeholder x context x filter sweep, on '
     'random nested templates (every DNA of spaces up to 200, 50 random beyond), on corrupted DNA trees and perturbed values; the direct oracle evaluates the property text on the real objects.')
@@ -876,14 +876,14 @@ def process_template(job):
   return rec
 
 # ------------------------------------------------------------------------------------------------
-# witnesses of the findings (fixed ones stay in the corpus; the open one sets its quirk flag)
+# witnesses of the findings (all fixed; they stay in the corpus, and the list-vs-empty-dict one sets the model's quirk flag by replay)
 CORPUS = [
     # encode ignored the distinct / sorted constraints of a multi-choice (fixed)
     ('corpus:manyof-encode-unchecked', ['1', [['M', 2, [['L', 1], ['L', 2]], True, False, None, None], ['l', [['L', 1], ['L', 1]]]], None, None], ['none']),
     ('corpus:manyof-encode-unsorted', ['1', [['M', 2, [['L', 1], ['L', 2], ['L', 3]], True, True, None, None], ['l', [['L', 3], ['L', 1]]]], None, None], ['none']),
     # encode dropped the filter below an accepted choice (fixed)
     ('corpus:encode-drops-where', ['D', [['x', ['1', [['1', [['L', 1], ['L', 2]], None, None], ['L', 3], ['L', 4]], None, None]]]], ['ncands', 3]),
-    # a list candidate before an empty dict candidate (open)
+    # a list candidate before an empty dict candidate (fixed; its replay sets the quirk flag of the model)
     ('corpus:list-vs-empty-dict', ['1', [['l', [['1', [['L', 1], ['L', 2]], None, None]]], ['D', []]], None, None], ['none']),
     ('corpus:list-vs-dict', ['1', [['l', [['L', 1]]], ['D', [['a', ['L', 1]]]]], None, None], ['none']),
     # object_template_test.py / docstring examples
